@@ -270,7 +270,7 @@ def _clone(v: Any, memo: dict[int, Any]) -> Any:
             n = SDict(None, v.fresh)
             n.open, n.tag = v.open, v.tag
             for k, x in v.__dict__.items():
-                if k not in ("entries", "fresh", "open", "tag", "sym_pairs"):
+                if k not in ("entries", "fresh", "open", "tag", "sym_pairs"):  # sym_exact and other flags are copied here
                     n.__dict__[k] = x
             memo[id(v)] = n
             n.entries = {k: _clone(x, memo) for k, x in v.entries.items()}
@@ -886,6 +886,8 @@ class Interp:
                         continue
                     if isinstance(o, SDict) and _hashable_const(k):
                         o.entries[k] = v
+                        if getattr(o, "sym_exact", False):
+                            o.sym_exact = False
                         yield s3, None
                     elif isinstance(o, SDict) and V.is_z3(k) and k.sort() == z3.StringSort():
                         # a store under a symbolic string key: recorded in `sym_pairs` (contracts read it); for every
@@ -893,6 +895,10 @@ class Interp:
                         # which over-approximates what follows
                         if not hasattr(o, "sym_pairs"):
                             o.sym_pairs = []
+                            # a dict that was CLOSED and EMPTY when its first symbolic key arrived is known exactly: its keys
+                            # are the symbolic keys stored so far (membership and reads by a symbolic key fork over them).
+                            # Any concrete-key store afterwards gives that up (entries and sym_pairs lose their order).
+                            o.sym_exact = (not o.open) and not o.entries
                         o.sym_pairs.append((k, v))
                         o.open = True
                         yield s3, None
